@@ -900,6 +900,10 @@ func parseOrderByExpressions(orderBy sqlparser.OrderBy) ([]logical.Expression, [
 	directions := make([]logical.OrderDirection, len(orderBy))
 
 	for i, field := range orderBy {
+		if value, ok := field.Expr.(*sqlparser.SQLVal); ok && value.Type == sqlparser.IntVal {
+			// In SQL this is the position of a select expression. Sorting by the constant instead would silently not sort at all.
+			return nil, nil, errors.Errorf("ordering by the position of a select expression (ORDER BY %s) is not supported, use the expression or its alias", string(value.Val))
+		}
 		expr, err := ParseExpression(field.Expr)
 		if err != nil {
 			return nil, nil, errors.Errorf("couldn't parse order by expression with index %v", i)
